@@ -225,6 +225,23 @@ static void limit_space (long start, long *pidx)
       one_case (text, sig, 0, 1);
     }
   }
+  /* fill sweep: the compiler's instruction table filled to every level near its end by one-slot instructions
+   * (temporaries only), then one instruction whose scalar operand is used for the first time (a literal, a .const, a
+   * .param: each needs a load slot of its own), then the store */
+  for (k = 86; k <= 99; k++) for (c = 0; c < 4; c++) {
+    long idx = (*pidx)++;
+    size_t o = 0;
+    char sig[64];
+    int j;
+    static const char *tails[] = { "addw t1, t1, 7\n", "addw t1, t1, c1\n", "addw t1, t1, p1\n", "addw t1, t1, 7\nsubw t1, t1, 9\n" };
+    if (idx < start || (idx % cfg.nshards) != cfg.shard) continue;
+    o += sprintf (text + o, ".function fill\n.source 2 s1\n.dest 2 d1\n.temp 2 t1\n.const 2 c1 5\n.param 2 p1\ncopyw t1, s1\n");
+    for (j = 0; j < k; j++) o += sprintf (text + o, "addw t1, t1, t1\n");
+    o += sprintf (text + o, "%scopyw d1, t1\n", tails[c]);
+    snprintf (sig, sizeof (sig), "fill=%d/scalar-tail=%d", k, c);
+    { char k_[260]; snprintf (k_, sizeof k_, "C14|crash|%s", sig); v_case (idx, k_, sig); }
+    one_case (text, sig, 0, 1);
+  }
   for (hs = 0; hs < 2; hs++) for (c = 0; c < 6; c++) for (k = class_limits[c] - 1; k <= class_limits[c] + 2; k++) {
     long idx = (*pidx)++;
     size_t o = 0;
